@@ -119,8 +119,27 @@ FIX_COMMITS = [
     'ce0fcfc fix: unterminated string arrays are an error and i18n items skip their terminator',
     '6ac32fd fix: do not reserve more numeric items than the input can supply',
     'c54702a fix: as_i18n_str returns None for an empty i18n table instead of panicking',
+    '3a189e1 fix: verify_digests returns an error for unknown digest algorithms and empty digest arrays',
+    '5a4ce29 fix: verify_signature rejects an empty OpenPGP signature array',
+    'c9f4460 fix: echo_signature does not index past short signatures',
+    '3b5c0ea fix: Sha256Writer hashes only the bytes the inner writer accepted',
+    '9674c65 fix: CompressionType parses "none"',
+    '90b6cfd fix: check the cpio name length before allocating the name buffer',
+    '03f03bc fix: stripped cpio entries: skip the header alignment and bounds-check the file index',
+    'aa5f2eb fix: count the bytes read from a cpio entry in u64',
+    '7e5434c fix: cpio Writer compares the written size in u64',
+    "2a345c2 fix: reject compression levels outside of the encoders' documented ranges",
+    '7cf49d9 fix: pair archive entries with the header file entry they name',
 ]
 
+PROPS['C09'] = dict(
+    level='proof', verus=['c09_from_entries', 'c14_writers', 'c07_payload', 'c16_offsets'],
+    trusted_base=[A_TOOLS, A_EXTRACT, 'A-LEAF-LINK: IndexData::append contract = K:k_append_* (bounded) on the real function; write_index contract proved in unit c14_writers',
+                  'assumed std specification of slice::sort_by (permutation, no earlier element compares Greater than a later one)', 'A-UTF8: String::as_bytes is uninterpreted'],
+    assumptions=['PARTIAL: decided are the header layout produced by Header::from_entries / create_region_tag (region tag + trailer, ascending tags, aligned in-range non-overlapping offsets, store = aligned concatenation), the 8-byte signature padding, the cpio 4-byte alignment arithmetic and the lead defaults. NOT covered (inside PackageBuilder::prepare_data): distinctness of emitted tags, non-zero counts, rpmlib() features per feature used, payload order = header order, compressor named = compressor used',
+                 'precondition of from_entries: the laid-out data fits i32 offsets (< 2 GiB) and fewer than 2^26 records - headers beyond that are not representable in the format'],
+    explanation='Header::from_entries (verbatim, closure contract spliced on the comparator, `for record in &mut` desugared to an index loop): the result is wf, entry 0 is the region tag (BIN, count 16) pointing at a 16-byte trailer equal to ser_entry(region, 7, -16*(n+1), 16), the other entries are the input records sorted by ascending tag, each at the type-aligned end of its predecessors, and the store is exactly the aligned concatenation of the encoded data followed by the trailer; unbounded in record count and data size.',
+)
 PROPS['C20'] = dict(
     level='proof', verus=['c20_timestamp'],
     trusted_base=[A_TOOLS, A_EXTRACT, 'A-TIME: stand-in SystemTime / Duration / chrono::DateTime types whose duration_since, as_secs, with_timezone(&Utc), timestamp carry their DOCUMENTED contracts (an instant is secs*1e9+nanos with nanos < 1e9); std and chrono arithmetic itself is not executed (Kani did not finish on std Timespec arithmetic: DESIGN exp. 15)',
